@@ -158,12 +158,30 @@ def build_harness():
     return True, ''
 
 
-def run_stream(cmd, lines, crash_tok='crash'):
-    """Feed lines to a line-per-line process; survive aborts by resuming after the killer line."""
+STREAM_TIMEOUT = int(os.environ.get('VERIF_STREAM_TIMEOUT', '600'))
+
+
+def run_stream(cmd, lines, crash_tok='crash', timeout=None):
+    """Feed lines to a line-per-line process; survive aborts by resuming after the killer line, and
+    survive a line that never returns (watchdog): the chunk is bisected with a shrinking time limit until the
+    hanging line is isolated; it is answered `hang` (a public operation that loops forever is a violation)."""
+    timeout = timeout or STREAM_TIMEOUT
     outs = []
     i = 0
     while i < len(lines):
-        p = subprocess.run(cmd, input='\n'.join(lines[i:]) + '\n', stdout=subprocess.PIPE, stderr=subprocess.DEVNULL, text=True, env=ENV)
+        try:
+            p = subprocess.run(cmd, input='\n'.join(lines[i:]) + '\n', stdout=subprocess.PIPE, stderr=subprocess.DEVNULL,
+                               text=True, env=ENV, timeout=timeout)
+        except subprocess.TimeoutExpired:
+            rest = lines[i:]
+            if len(rest) == 1:
+                outs.append('hang')
+                break
+            h = len(rest) // 2
+            sub = max(20, timeout // 2)
+            outs.extend(run_stream(cmd, rest[:h], crash_tok, sub))
+            outs.extend(run_stream(cmd, rest[h:], crash_tok, sub))
+            break
         got = p.stdout.split('\n')
         if got and got[-1] == '':
             got.pop()
